@@ -317,6 +317,18 @@ func runC08(in sx.SX) (sx.SX, string) {
 			}
 		}
 	}
+	// Sum is the left fold of + over its arguments (the first argument decides the type of every step)
+	if fail == "" && up == "SUM" && len(args) >= 2 {
+		acc, ferr := args[0], error(nil)
+		for _, a := range args[1:] {
+			if acc, ferr = m.Add(acc, a); ferr != nil {
+				break
+			}
+		}
+		if ok, why := sameResult(res, err, acc, ferr); !ok {
+			fail = "Sum differs from adding its arguments from left to right: " + why
+		}
+	}
 	// direct oracle: what the name denotes (for the functions with a simple closed form)
 	if fail == "" && err == nil && res != nil {
 		fail = c08Denotes(up, args, res, m)
